@@ -8,7 +8,7 @@
    transformation() followed by conversion_surface_params(). *)
 From Coq Require Import List ZArith Bool Reals Lra.
 From T4V Require Import Base.Scalar C04.Vec C04.Model C04.Spec C04.ProofsFrame C04.ProofsConvert
-  C04.ProofsQuad C04.ProofsSurf C04.ProofsMatrix C04.ProofsCard C04.ProofsTorus C04.ProofsMatrix5 C04.ProofsCompose C04.ProofsComposeCex C04.ProofsAdjust C04.ProofsTree.
+  C04.ProofsQuad C04.ProofsSurf C04.ProofsMatrix C04.ProofsCard C04.ProofsTorus C04.ProofsMatrix5 C04.ProofsCompose C04.ProofsComposeCex C04.ProofsAdjust C04.ProofsTree C04.ProofsInterface.
 Import ListNotations.
 Open Scope R_scope.
 
@@ -325,6 +325,49 @@ Theorem C04_convert_law : forall (s : msurf R), conv_wf s ->
     forall P, (mneg s P <-> coll_neg coll P) /\ (mpos s P <-> coll_pos coll P).
 Proof. exact convert_law. Qed.
 Print Assumptions C04_convert_law.
+
+(* ---------- FOR IMPORTERS: the interface law, one statement over every kind ---------- *)
+(* [iface_wf b s]: s is convertible as it stands ([conv_wf_all]: unit axes, parameter lists of
+   the right shape, sheet in {none,0,+1,-1}, ten quadric coefficients, torus axis exactly on a
+   coordinate axis or outside the allclose band) and the torus axis moved by B is too.
+   Then: the surfaces written for the MOVED part select at O + B^T p the regions the surfaces
+   written for the UNMOVED part select at p, which are the MCNP regions of s. *)
+Theorem C04_interface_law : forall (o : R3) (b : M3 R) (s : msurf R),
+  rows_orthonormal b -> iface_wf b s ->
+  exists coll0 coll,
+    convert RS s = Ok coll0 /\ tr_convert RS (tr12 o b) s = Ok coll /\
+    forall p, (coll_neg coll (to_main o b p) <-> coll_neg coll0 p) /\
+              (coll_pos coll (to_main o b p) <-> coll_pos coll0 p) /\
+              (coll_neg coll0 p <-> mneg s p) /\ (coll_pos coll0 p <-> mpos s p).
+Proof. exact interface_law. Qed.
+Print Assumptions C04_interface_law.
+
+(* conversion alone, every kind (adds torus and SQ to C04_convert_law) *)
+Theorem C04_convert_law_all : forall (s : msurf R), conv_wf_all s ->
+  exists coll, convert RS s = Ok coll /\
+    forall P, (mneg s P <-> coll_neg coll P) /\ (mpos s P <-> coll_pos coll P).
+Proof. exact convert_law_all. Qed.
+Print Assumptions C04_convert_law_all.
+
+(* a dictionary entry (macrobody facets with their sides, one-sheet cones): convert_mcnp_surface
+   = SurfaceCollection.join of the converted parts selects inside-every-part / outside-some-part *)
+Theorem C04_entry_law : forall (e : list (msurf R * Z)), entry_wf e ->
+  exists coll, convert_entry RS e = Ok coll /\
+    forall P, (entry_neg e P <-> coll_neg coll P) /\ (entry_pos e P <-> coll_pos coll P).
+Proof. exact entry_law. Qed.
+Print Assumptions C04_entry_law.
+
+(* a whole TRCL cell at TRIPOLI-4 level: with every dictionary entry converted by
+   convert_entry, the expression written for the moved cell holds at O + B^T p' exactly when the
+   expression written for the unmoved cell holds at p' *)
+Theorem C04_trcl_cell_t4 : forall (o : R3) (b : M3 R) cellsem (t t' : gtree) (st st' : pstate),
+  rows_orthonormal b -> surf_only (fst st) t = true -> (0 <= fst st)%Z ->
+  table_wf (snd st) -> keys_le (fst st) (snd st) ->
+  table_cwf (snd st) -> table_cwf (snd st') ->
+  apply_trcl RS [tr12 o b] t st = Ok (t', st') ->
+  forall p', region_t4 cellsem (snd st') t' (to_main o b p') <-> region_t4 cellsem (snd st) t p'.
+Proof. exact trcl_cell_t4. Qed.
+Print Assumptions C04_trcl_cell_t4.
 
 (* non-vacuity: the quarter turn about z used by the corpus deck
    TRCL=(1 0 0  0 1 0  -1 0 0  0 0 1) satisfies every hypothesis on B, and moves
